@@ -34,6 +34,7 @@ struct vpki_opts {
     const char *const *san_dir_cn; int n_san_dir_cn;
     bool no_ski;
     int ski_len;                  /* > 0: a subject key identifier of that many bytes instead of the usual 20-byte hash */
+    bool rsa_key;                 /* RSA-2048 key pair instead of EC P-256 */
     int subject_extra_ous;        /* further OU components of 60 characters each in the subject */
 };
 
